@@ -32,7 +32,9 @@ class C12(Check):
     level_note = ("Trusted: Coq kernel, extraction, harness stub of send_am; assumes exactly-once message delivery (C14) and no "
                   "int overflow (2n+2 < 2^31). In the arrival cases parsec_taskpool_lookup is replaced by a one-entry table (the real "
                   "registry is C37's subject); one notification per process (duplicates are excluded by C14 and the tree theorems).")
-    technique = "Coq proof (spanning binary tree for every n, root) + differential run of the real module against the extracted model"
+    technique = ("Coq proof (spanning binary tree for every n and root; arrival protocol and counter protocol of one process for every "
+                 "interleaving / history) + child formula regenerated from the C text (c2gallina) with an equivalence theorem + differential "
+                 "run of the real module against the extracted model, under controlled schedules for the arrival protocol")
     rule = ("'one n root me': exhaustive over all (n, root, me) with n <= NMAX, plus sampled n up to 4096; "
             "'sys n root': whole-system delivery simulation; 'arr ini n root me sched': every 0/1 schedule prefix of length 12 "
             "for ini = 0, 1 (then round-robin), all prefixes of length 3 for ini = 2, plus random long schedules.  "
